@@ -151,7 +151,7 @@ __CPROVER_loop_invariant(HIT_INV(BosonicIndexV > g_V || (BosonicIndexV == g_V &&
 __CPROVER_decreases(FermionicMatrixSize - NupIndexM)
 //@end
 
-//@harness h_MC4_fill enforce=MC4_fill props=C15 min_obl=1640 reach=3 timeout=900 defs=-DMON_FILL
+//@harness h_MC4_fill enforce=MC4_fill props=C15,C17 min_obl=1640 reach=3 timeout=900 defs=-DMON_FILL
 void h_MC4_fill(void)
 {
   struct MC4 *c; struct Vertex4 *src; long N;
@@ -195,7 +195,7 @@ __CPROVER_ensures(!IN_WINDOW(g_N, n1_, n2_, n3_) ==> (g_calls == 1 && g_a1 == n1
 __CPROVER_ensures((GHOST_IS(n1_, n2_, n3_) || !IN_WINDOW(g_N, n1_, n2_, n3_)) ==> C_SAME(__CPROVER_return_value, vertex_uf(n1_, n2_, n3_)))
 //@end
 
-//@harness h_MC4_call enforce=MC4_call props=C15 min_obl=659 reach=5 timeout=300
+//@harness h_MC4_call enforce=MC4_call props=C15,C17 min_obl=659 reach=5 timeout=300
 void h_MC4_call(void)
 {
   struct MC4 *c; long n1, n2, n3;
@@ -310,7 +310,7 @@ __CPROVER_assigns(g_calls, g_a1, g_a2, g_a3, self->Storage.Values.cur, self->Sto
 __CPROVER_ensures((GHOST_IS(n1_, n2_, n3_) || !IN_WINDOW(g_N, n1_, n2_, n3_)) ==> C_SAME(__CPROVER_return_value, vertex_uf(n1_, n2_, n3_)))
 __CPROVER_ensures(IN_WINDOW(g_N, n1_, n2_, n3_) == (g_calls == 0))
 //@end
-//@harness h_Vertex4_call enforce=Vertex4_call replace=MC4_call props=C15 min_obl=748 reach=1 timeout=120
+//@harness h_Vertex4_call enforce=Vertex4_call replace=MC4_call props=C15,C17 min_obl=748 reach=1 timeout=120
 void h_Vertex4_call(void)
 {
   struct Vertex4 *v; long n1, n2, n3;
@@ -334,7 +334,7 @@ __CPROVER_ensures(self->Storage.pSource == self && self->Storage.NumberOfMatsuba
 __CPROVER_ensures(CINV_SIZES(&self->Storage) && CINV_SLICE(&self->Storage) && CINV_CELL(&self->Storage))
 __CPROVER_ensures(g_hits == (GHOST_VALID ? 1 : 0))
 //@end
-//@harness h_Vertex4_compute enforce=Vertex4_compute replace=MC4_fill props=C15 min_obl=783 reach=1 timeout=120
+//@harness h_Vertex4_compute enforce=Vertex4_compute replace=MC4_fill props=C15,C17 min_obl=783 reach=1 timeout=120
 void h_Vertex4_compute(void)
 {
   struct Vertex4 *v; long N;
